@@ -19,19 +19,30 @@ Inductive val :=
 | VStr (k : Z)          (* some other value (the string 'v<k>'): never re-scheduled *)
 | VHang                 (* the string 'hang' yielded by Condition.wait *)
 | VAwake                (* the tuple (routine, clock) passed by __awake__ *)
-| VUnbound.             (* FlowVar._UNBOUND *)
+| VUnbound              (* FlowVar._UNBOUND *)
+| VFloat (z : Z)        (* a float with an integral value (0.0, 1.0, ...): a number, re-scheduled *)
+| VBool (b : bool)      (* False / True: NOT a number for the clocks *)
+| VEmptyStr             (* '' *)
+| VEmptyList.           (* [] *)
 
 Definition val_eqb (a b : val) : bool :=
   match a, b with
   | VNone, VNone | VHang, VHang | VAwake, VAwake | VUnbound, VUnbound => true
   | VInt x, VInt y => Z.eqb x y
   | VStr x, VStr y => Z.eqb x y
+  | VFloat x, VFloat y => Z.eqb x y
+  | VBool x, VBool y => Bool.eqb x y
+  | VEmptyStr, VEmptyStr | VEmptyList, VEmptyList => true
   | _, _ => false
   end.
 
 Inductive ckind :=
-| CCond (test : bool)            (* Condition(test) *)
-| CFlow (value : option val).    (* FlowVar: None = _UNBOUND *)
+| CCond (test : bool)            (* Condition(test): the TRUTH VALUE of the test (any object, or what a callable returns) *)
+| CFlow (value : option val)     (* FlowVar: None = _UNBOUND; bound to ANY value (0, None, False, '', [] included) *)
+| CCondErr (base : bool).        (* Condition whose test is a callable that raises (base: a BaseException-only class) *)
+
+(* what is assigned to cond.test *)
+Inductive tval := TBool (b : bool) | TErr (base : bool).
 
 Record cell := mkCell { ckind_of : ckind; waiting : list nat }.
 
@@ -41,7 +52,12 @@ Definition cell_test (c : cell) : bool :=
   | CCond b => b
   | CFlow None => false
   | CFlow (Some _) => true
+  | CCondErr _ => false          (* never consulted: the callers look at cell_err first *)
   end.
+
+(* evaluating the test raises *)
+Definition cell_err (c : cell) : option bool :=
+  match ckind_of c with CCondErr b => Some b | _ => None end.
 
 (* Condition.wait() executed by thread player [who]: the value it yields.
      if not self.test: self._waiting_threads.append(who); yield 'hang'
@@ -59,10 +75,10 @@ Definition cell_unhang (c : cell) : cell * list nat :=
   (mkCell (ckind_of c) [], waiting c).
 
 (* cond.test = b (plain Conditions only; on a FlowVar's condition it is not modelled: no change) *)
-Definition cell_settest (b : bool) (c : cell) : cell :=
+Definition cell_settest (t : tval) (c : cell) : cell :=
   match ckind_of c with
-  | CCond _ => mkCell (CCond b) (waiting c)
   | CFlow _ => c
+  | _ => mkCell (match t with TBool b => CCond b | TErr e => CCondErr e end) (waiting c)
   end.
 
 (* FlowVar.value = v :  raise Exception('cannot rebind') if bound, else bind and signal.
@@ -70,8 +86,7 @@ Definition cell_settest (b : bool) (c : cell) : cell :=
 Definition cell_flowset (v : val) (c : cell) : option (cell * list nat) :=
   match ckind_of c with
   | CFlow None => Some (cell_signal (mkCell (CFlow (Some v)) (waiting c)))
-  | CFlow (Some _) => None
-  | CCond _ => None
+  | _ => None
   end.
 
 (* what "yield from flowvar.value" returns when the routine goes on *)
@@ -118,7 +133,7 @@ Definition cstep (o : cop) (c : cell) : cell * list nat :=
   | CoWait who => (fst (cell_wait who c), [])
   | CoSignal => cell_signal c
   | CoUnhang => cell_unhang c
-  | CoSetTest b => (cell_settest b c, [])
+  | CoSetTest b => (cell_settest (TBool b) c, [])
   | CoFlowSet v => match cell_flowset v c with Some r => r | None => (c, []) end
   end.
 
